@@ -70,6 +70,13 @@ func c01Units(tier string) []Unit {
 					Depth: 6, Budget: explore.Budget{Provides: 2, Decorates: 1, Invokes: 3, Rejected: 0}, Allowed: onceEach, Monitors: mon}})
 			}
 		}
+		if !def {
+			// result objects (of a constructor, of a decorator) whose tagged
+			// fields come before untagged ones: every field is keyed by its own
+			// tags only
+			add("result-object-field-order", cfg, prefixChild, alpha{scopes: []int{0, 1}, ctors: []*uFunc{pNB, pGB, pB}, export: !q,
+				decos: []*uFunc{dNB}, invokes: []*uFunc{iNB, iB}}, 5, explore.Budget{Provides: 3, Decorates: 1, Invokes: 2, Rejected: 1})
+		}
 		if !q || !def {
 			add("chain3"+tag, cfg, prefixChain, alpha{scopes: []int{0, 1, 2}, ctors: []*uFunc{pA, pB}, export: true,
 				decos: []*uFunc{dA}, invokes: []*uFunc{iA, iB}}, d, b)
@@ -79,3 +86,10 @@ func c01Units(tier string) []Unit {
 	}
 	return units
 }
+
+var (
+	pNB = u.F("pNB", "", "{A@n;B}")               // a named field declared before an untagged one
+	pGB = u.F("pGB", "", "{A+g;C;B@n}")           // a group field before an untagged and a named one
+	dNB = u.F("dNB", "{A@n;B}", "{A@n;B}")        // a decorator returning the same shape
+	iNB = u.F("iNB", "{A@n?;B?;B@n?;C?;A*g}", "") // everything optional: shows what there is
+)
